@@ -63,27 +63,20 @@ fn scenario(stereo: bool, frames: usize) {
     // sample_rate / player_frequency == spf
     let mut p = Player::<Rec>::new(vtx_of(frames, &data, 1), spf, stereo);
     let ch = if stereo { 2 } else { 1 };
-    // two calls with symbolic buffer lengths (incl. 0, 1 and odd lengths in stereo), then drain
-    let mut out = [0f64; 12];
-    let mut filled = 0usize;
+    // a first call with a symbolic buffer length (0, 1, odd in stereo, a whole frame, ...), then the rest
+    let mut out = [0f64; 10];
     let l1: usize = kani::any();
-    let l2: usize = kani::any();
-    kani::assume(l1 <= 3 && l2 <= 3);
-    let n = p.play(&mut out[0..l1]);
-    kani::assert(n <= l1 && n % ch == 0, "C20: play fills whole sample frames within the buffer");
-    filled += n;
-    let n = p.play(&mut out[filled..filled + l2]);
-    kani::assert(n <= l2 && n % ch == 0, "C20: play fills whole sample frames within the buffer");
-    filled += n;
-    let n = p.play(&mut out[filled..12]);
-    filled += n;
+    kani::assume(l1 <= 4);
+    let n1 = p.play(&mut out[0..l1]);
+    kani::assert(n1 <= l1 && n1 % ch == 0, "C20: play fills whole sample frames within the buffer");
+    let n2 = p.play(&mut out[n1..10]);
+    let filled = n1 + n2;
     let total = frames * spf;
-    // total = frames * floor(rate / player_frequency) samples per channel, then the end
     kani::assert(filled == total * ch, "C20: frames*floor(rate/freq) samples per channel in total");
-    kani::assert(p.play(&mut out[8..12]) == 0, "C20: nothing after the end");
+    kani::assert(p.play(&mut out[8..10]) == 0, "C20: nothing after the end");
     // the stream does not depend on how it was split: sample k carries value k (left) / -k (right)
     let mut i = 0;
-    while i < 12 {
+    while i < 10 {
         if i < filled {
             let k = (i / ch) as f64;
             let exp = if stereo && i % 2 == 1 { -k } else { k };
@@ -102,11 +95,8 @@ fn scenario(stereo: bool, frames: usize) {
         while r < 14 {
             let val = data[j * 14 + r];
             if !(r == 13 && val == 0xFF) {
-                kani::assert(w < ay.n_w, "C20: every register of every frame is written");
-                if w < ay.n_w {
-                    kani::assert(ay.w_reg[w] == r as u8 && ay.w_val[w] == val, "C20: frame k's fourteen values in register order, R13=0xFF skipped");
-                    kani::assert(ay.w_at[w] == j * spf, "C20: frame k applied exactly at output sample k*floor(rate/freq)");
-                }
+                kani::assert(w < ay.n_w && ay.w_reg[w] == r as u8 && ay.w_val[w] == val && ay.w_at[w] == j * spf,
+                    "C20: frame k's fourteen values, in register order, exactly at output sample k*floor(rate/freq); R13=0xFF skipped");
                 w += 1;
             }
             r += 1;
